@@ -68,6 +68,8 @@ Definition parse_envelope (env custom : bytes) : option envelope :=
   (* sgx_qe_cert_data_t: uint16 type, uint32 size, then the data *)
   if nlen r2 <? SIZEOF_SgxQeCertData then None else
   let csz := from_bytes_le (firstn 4 (skipn 2 r2)) in
+  (* compare lengths before converting the 32-bit size to nat *)
+  if nlen (skipn 6 r2) <? csz then None else
   let cdata := firstn (N.to_nat csz) (skipn 6 r2) in
   if negb (nlen cdata =? csz) then None else
   let tail := skipn (6 + N.to_nat csz) r2 in
